@@ -428,6 +428,7 @@ func SetProof(header SessionHeader, evidenceType EvidenceType, p Proof, max sdk.
 	if err != nil {
 		log.Fatalf("could not set proof object: %s", err.Error())
 	}
+	VerifYieldAt("setproof.read")
 	// add proof
 	evidence.AddProof(p)
 	// set GOBEvidence back
